@@ -83,6 +83,52 @@ class Forest:
         self.clang_values = None  # mangled name -> value of constexpr static data members, evaluated by clang (lazy)
         for o in objs:
             self.walk(o, None)
+        # --- plain (non-template) records, for the configuration key "structs": fields, constructors, owners of member
+        # functions (also of the out-of-line definitions), definitions by the id of their first declaration
+        self.rec_name = {}        # CXXRecordDecl id -> name
+        self.rec_fields = {}      # record name -> [(field name, printed type)]
+        self.rec_ctors = []       # (record name, CXXConstructorDecl)
+        self.rec_owner = {}       # id of a member function / constructor declaration -> record name
+        self.def_by_decl = {}     # id of any declaration of a function -> its definition
+        self._seen2 = set()
+        for o in objs:
+            self.walk_names(o)
+        for o in objs:
+            self.walk2(o, None)
+
+    def walk_names(self, n):
+        if not isinstance(n, dict):
+            return
+        if n.get("kind") == "CXXRecordDecl" and not n.get("isImplicit") and "id" in n and n.get("name"):
+            self.rec_name.setdefault(n["id"], n["name"])
+        for c in n.get("inner", []):
+            self.walk_names(c)
+
+    def walk2(self, n, rec):
+        if not isinstance(n, dict):
+            return
+        k = n.get("kind")
+        if k in ("ClassTemplateDecl", "ClassTemplateSpecializationDecl", "ClassTemplatePartialSpecializationDecl"):
+            return
+        if k == "CXXRecordDecl" and not n.get("isImplicit") and n.get("name") and n.get("completeDefinition"):
+            rec = n["name"]
+            if n.get("id") not in self._seen2:
+                self._seen2.add(n.get("id"))
+                self.rec_fields[rec] = [(c.get("name"), qt(c)) for c in n.get("inner", []) if isinstance(c, dict) and c.get("kind") == "FieldDecl"]
+        if k in ("FunctionDecl", "CXXMethodDecl", "CXXConversionDecl", "CXXConstructorDecl") and "id" in n:
+            owner = self.rec_name.get(n.get("parentDeclContextId")) if "parentDeclContextId" in n else rec
+            if k != "FunctionDecl" and owner is not None:
+                self.rec_owner[n["id"]] = owner
+            if any(isinstance(x, dict) and x.get("kind") == "CompoundStmt" for x in n.get("inner", [])):
+                self.def_by_decl.setdefault(n["id"], n)
+                if "previousDecl" in n:
+                    self.def_by_decl.setdefault(n["previousDecl"], n)
+            if k == "CXXConstructorDecl" and owner is not None and n["id"] not in self._seen2:
+                self._seen2.add(n["id"])
+                self.rec_ctors.append((owner, n))
+            return
+        for c in n.get("inner", []):
+            self.walk2(c, rec)
 
     def walk(self, n, cls):
         k = n.get("kind")
@@ -306,7 +352,65 @@ def callee_name(fn, forest):
     return "_".join(x for x in parts if x) + "_g"
 
 
+class SV(list):
+    """value of a record listed in the configuration key "structs": one term per field (a field of record type is an
+    SV again); printed as a Gallina tuple, a record with one scalar field as the bare value"""
+
+    def __str__(self):
+        return str(self[0]) if len(self) == 1 else "(" + ", ".join(str(x) for x in self) + ")"
+
+
+def sv_flat(v):
+    if isinstance(v, SV):
+        return [y for x in v for y in sv_flat(x)]
+    return [v]
+
+
+def rec_key(t):
+    """name of the configured struct a printed type denotes, or None"""
+    t = strip_cv(t)
+    if t.startswith("struct "):
+        t = t[7:]
+    t = t.split("::")[-1] if "<" not in t else t
+    return t if t in Tr.structs else None
+
+
+def sv_names(rec, prefix):
+    """an SV of fresh parameter names for a record: <prefix>_<field without leading underscore>, a one-field record of
+    a scalar is the prefix itself"""
+    fields = struct_fields(rec)
+    out = SV()
+    for (fname, ftype) in fields:
+        sub = rec_key(ftype)
+        nm = prefix if len(fields) == 1 else (prefix + "_" if prefix else "") + fname.lstrip("_")
+        out.append(sv_names(sub, nm) if sub else nm)
+    return out
+
+
+def struct_fields(rec):
+    """the fields of a configured struct, CHECKED against the record definition of the AST"""
+    want = Tr.structs[rec]
+    have = Tr.forest.rec_fields.get(rec) if Tr.forest is not None else None
+    if have is None or [f for f, _ in have] != list(want):
+        raise Refuse(f"struct {rec}: configured fields {want} are not the record's fields {have}")
+    for (f, t) in have:
+        if rec_key(t) is None:
+            ity_of({"type": {"qualType": t}, "kind": "FieldDecl"})      # integer field or Refuse
+    return have
+
+
+def sv_pattern(rec, tr, base):
+    """fresh names for every leaf of a record value (to take a tuple apart)"""
+    fields = struct_fields(rec)
+    out = SV()
+    for (fname, ftype) in fields:
+        sub = rec_key(ftype)
+        out.append(sv_pattern(sub, tr, base) if sub else tr.fresh(base + fname.lstrip("_") + "_"))
+    return out
+
+
 class Tr:
+    structs = {}          # configuration key "structs": record name -> field names (plain records carried field by field)
     forest = None         # all declarations of the translation unit (set per configuration)
     kernel_calls = {}     # C++ function name -> Gallina name of an already generated kernel (set per configuration)
     auto_callees = False  # configuration key "auto_callees": translate called functions on demand, resolved by declaration id
@@ -322,6 +426,8 @@ class Tr:
         self.records = records
         self.calls = calls
         self.members = members
+        self.this_val = None  # SV of the object a member function / constructor body works on (key "structs")
+        self.this_rec = None
 
     def fresh(self, base="t"):
         self.n += 1
@@ -331,6 +437,10 @@ class Tr:
     def expr(self, n):
         k = n["kind"]
         inner = n.get("inner", [])
+        if Tr.structs:
+            r = self.expr_struct(n, k, inner)
+            if r is not NotImplemented:
+                return r
         if k == "ConstantExpr" and "value" in n:
             # clang evaluated it (e.g. the condition of an `if constexpr` in an instantiation)
             v = n["value"]
@@ -434,6 +544,10 @@ class Tr:
                 # x.count(), static_cast<unsigned>(m) via conversion operator, ... : value-carrying accessors
                 if name in self.calls and self.calls[name] == "id":
                     return self.expr(callee["inner"][0])
+                if name in self.calls and self.calls[name].startswith("getter_copy:"):
+                    # the same, the member being a record that the accessor returns by (defaulted) copy
+                    check_getter(Tr.forest, callee.get("referencedMemberDecl"), self.calls[name][len("getter_copy:"):], copy=True)
+                    return self.expr(callee["inner"][0])
                 if name in self.calls and self.calls[name].startswith("getter:"):
                     # accessor of a record carried as its one data member: the body must be `return <member>;`
                     check_getter(Tr.forest, callee.get("referencedMemberDecl"), self.calls[name][len("getter:"):])
@@ -479,6 +593,242 @@ class Tr:
             raise Refuse(f"call to {name}")
         raise Refuse(f"expression kind {k}")
 
+    # ---- configuration key "structs": plain records carried field by field, calls INLINED from the callee's definition
+    def sub_tr(self):
+        sub = Tr(self.records, self.calls, self.members)
+        sub.binds = self.binds          # straight-line code is spliced into the caller's bindings
+        sub.n = self.n
+        return sub
+
+    def expr_struct(self, n, k, inner):
+        if k == "DeclRefExpr" and n["referencedDecl"]["id"] not in self.env and rec_key(qt(n)) is not None \
+                and not struct_fields(rec_key(qt(n))):
+            return SV()                         # an object of an empty record (the tag `last`): no value to carry
+        if k == "CXXThisExpr":
+            if self.this_val is None:
+                raise Refuse("this outside a member function")
+            return self.this_val
+        if k == "UnaryOperator" and n.get("opcode") == "*" and inner[0].get("kind") == "CXXThisExpr":
+            return self.expr(inner[0])
+        if k == "MemberExpr" and inner and not qt(n).startswith("<bound member"):
+            base = inner[0]
+            rec = rec_key(qt(base).rstrip("*").strip()) if base.get("kind") == "CXXThisExpr" else rec_key(qt(base))
+            if rec is None:
+                return NotImplemented
+            v = self.expr(base)
+            names = [f for f, _ in struct_fields(rec)]
+            if not isinstance(v, SV) or n.get("name") not in names or len(v) != len(names):
+                raise Refuse(f"member access {n.get('name')} of {rec}")
+            return v[names.index(n["name"])]
+        if k in ("CXXConstructExpr", "CXXTemporaryObjectExpr"):
+            rec = rec_key(qt(n))
+            if rec is None:
+                return NotImplemented
+            return self.construct_struct(n, rec, inner)
+        if k == "InitListExpr" and len(inner) == 1 and rec_key(qt(n)) is None and ity_ok(n) and ity_ok(inner[0]) \
+                and ity_of(n) == ity_of(inner[0]):
+            return self.expr(inner[0])          # int{e} with e of that very type (conversions are explicit cast nodes)
+        if k == "ArraySubscriptExpr":
+            a = inner[0]
+            while a.get("kind") in ("ImplicitCastExpr", "ParenExpr"):
+                a = a["inner"][0]
+            arr = self.env.get(a.get("referencedDecl", {}).get("id")) if a.get("kind") == "DeclRefExpr" else None
+            if not (isinstance(arr, tuple) and arr[0] == "array"):
+                raise Refuse("subscript of something that is not a local constant array")
+            idx = self.expr(inner[1])
+            t = self.fresh()
+            self.binds.append(("do", t, "nth_chk [" + "; ".join(arr[1]) + f"] {idx}"))   # None = index outside the array
+            return SV([t]) if rec_key(qt(n)) else t
+        if k in ("CXXMemberCallExpr", "CallExpr", "CXXOperatorCallExpr"):
+            callee = inner[0]
+            while callee.get("kind") in ("ImplicitCastExpr", "ParenExpr"):
+                callee = callee["inner"][0]
+            name = callee.get("name") or callee.get("referencedDecl", {}).get("name") or ""
+            if name in self.calls:
+                return NotImplemented           # configured accessor of a carried record (duration::count ...)
+            if callee.get("kind") == "MemberExpr":
+                fid, obj, args = callee.get("referencedMemberDecl"), callee["inner"][0], inner[1:]
+            elif callee.get("kind") == "DeclRefExpr":
+                fid, obj, args = callee.get("referencedDecl", {}).get("id"), None, inner[1:]
+            else:
+                return NotImplemented
+            fn = Tr.forest.def_by_decl.get(fid) if Tr.forest is not None else None
+            if fn is None:
+                return NotImplemented
+            is_member = fn.get("kind") in ("CXXMethodDecl", "CXXConversionDecl") and fn.get("storageClass") != "static"
+            if is_member and obj is None:
+                obj, args = args[0], args[1:]       # member operator called with operator syntax
+            if is_member and rec_key(qt(obj).rstrip("*").strip()) is None:
+                return NotImplemented           # a member of a record that is not a configured struct (duration ...)
+            return self.call_struct(fn, obj if is_member else None, args, n)
+        return NotImplemented
+
+    def call_struct(self, fn, obj, args, n):
+        name = fn.get("name")
+        if fn.get("id") in Tr.in_progress:
+            raise Refuse(f"recursive call of {name}")
+        ftype = fn.get("type", {}).get("qualType", "")
+        if obj is not None and not re.search(r"\) const( noexcept)?( ->.*)?$", ftype):
+            raise Refuse(f"call to non-const member function {name}")
+        this_val = self.expr(obj) if obj is not None else None
+        ps = [p for p in fn.get("inner", []) if p.get("kind") == "ParmVarDecl"]
+        if len(ps) != len(args):
+            raise Refuse(f"call to {name}: {len(args)} arguments for {len(ps)} parameters")
+        vals = [self.expr(a) for a in args]             # left to right; side-effect free in the accepted subset
+        ret_rec = rec_key(qt(n))
+        g = Tr.kernel_ids.get(fn.get("id")) or Tr.kernel_ids.get(fn.get("previousDecl"))
+        if g is not None:
+            # a listed kernel marked "callable", generated earlier: bind its checked result
+            flat = (sv_flat(this_val) if this_val is not None else []) + [y for v in vals for y in sv_flat(v)]
+            t = self.fresh()
+            self.binds.append(("do", t, " ".join([g] + [str(x) for x in flat])))
+            return self.take_apart(t, ret_rec, name)
+        body = [x for x in fn["inner"] if x.get("kind") == "CompoundStmt"][0].get("inner", [])
+        sub = self.sub_tr()
+        sub.this_val = this_val
+        sub.this_rec = Tr.forest.rec_owner.get(fn.get("id"))
+        for p, v in zip(ps, vals):
+            sub.env[p["id"]] = v
+        Tr.in_progress.add(fn.get("id"))
+        try:
+            if all(s.get("kind") in ("DeclStmt", "NullStmt") for s in body[:-1]) and body and body[-1].get("kind") == "ReturnStmt":
+                # straight-line callee: its bindings are spliced in, the returned expression is the value
+                saved = sub.binds
+                r0 = sub.stmts(body[:-1])
+                assert r0 is None and sub.binds is saved
+                term = sub.expr(body[-1]["inner"][0])
+                self.n = sub.n
+                return term
+            # a callee with branches: its whole body as one checked computation
+            sub.binds = []
+            r = sub.stmts(body)
+            self.n = sub.n
+            if r is None:
+                raise Refuse(f"call to {name}: body without return")
+        finally:
+            Tr.in_progress.discard(fn.get("id"))
+        t = self.fresh()
+        self.binds.append(("do", t, "(" + r + ")"))
+        return self.take_apart(t, ret_rec, name)
+
+    def take_apart(self, t, rec, name):
+        if rec is None:
+            return t
+        pat = sv_pattern(rec, self, re.sub(r"[^A-Za-z0-9]+", "", name or "r")[:6] + "_")
+        if len(sv_flat(pat)) > 1:
+            self.binds.append(("letp", str(pat), t))
+            return pat
+        return self.rewrap(pat, t)
+
+    def rewrap(self, pat, t):
+        return SV([self.rewrap(x, t) if isinstance(x, SV) else t for x in pat])
+
+    def construct_struct(self, n, rec, inner):
+        fields = struct_fields(rec)
+        ct = n.get("ctorType", {}).get("qualType", "")
+        args = [x for x in inner if isinstance(x, dict)]
+        cands = [d for (o, d) in Tr.forest.rec_ctors if o == rec and d.get("type", {}).get("qualType") == ct]
+        if not cands:
+            raise Refuse(f"no constructor {ct} of {rec}")
+        user = [d for d in cands if not d.get("isImplicit") and d.get("explicitlyDefaulted") != "default"]
+        if not user:
+            # implicit / defaulted special members
+            if len(args) == 0:
+                if not n.get("zeroing"):
+                    raise Refuse(f"default-initialisation of {rec} without zeroing")
+                return self.rewrap(sv_names(rec, "z"), "0")
+            ps = [p for p in cands[0].get("inner", []) if p.get("kind") == "ParmVarDecl"]
+            if len(args) == 1 and len(ps) == 1 and rec_key(qt(ps[0])) == rec:
+                v = self.expr(args[0])
+                if not isinstance(v, SV):
+                    raise Refuse(f"copy of {rec} from a value that is not carried field by field")
+                return v
+            raise Refuse(f"defaulted constructor {ct} of {rec}")
+        defs = [d for d in user if any(x.get("kind") == "CompoundStmt" for x in d.get("inner", []))]
+        if len(defs) != 1:
+            raise Refuse(f"{len(defs)} definitions of constructor {ct} of {rec}")
+        vals = [self.expr(a) for a in args]
+        return self.run_ctor(defs[0], rec, vals)
+
+    def run_ctor(self, d, rec, vals):
+        """the object a user-written constructor leaves behind: member initialisers in declaration order of the fields,
+        then the assignments of the body"""
+        fields = struct_fields(rec)
+        if d.get("id") in Tr.in_progress and vals is not None:
+            raise Refuse("recursive constructor")
+        ps = [p for p in d.get("inner", []) if p.get("kind") == "ParmVarDecl"]
+        if len(ps) != len(vals):
+            raise Refuse(f"constructor of {rec}: {len(vals)} arguments for {len(ps)} parameters (default arguments)")
+        sub = self.sub_tr()
+        for p, v in zip(ps, vals):
+            sub.env[p["id"]] = v
+        inits = [x for x in d.get("inner", []) if x.get("kind") == "CXXCtorInitializer"]
+        cur = {}
+        if len(inits) == 1 and "anyInit" not in inits[0]:
+            v = sub.expr([x for x in inits[0]["inner"] if isinstance(x, dict)][0])      # delegating constructor
+            if not isinstance(v, SV) or len(v) != len(fields):
+                raise Refuse(f"delegating constructor of {rec}")
+            cur = {f: v[i] for i, (f, _) in enumerate(fields)}
+        else:
+            by_name = {}
+            for x in inits:
+                if "anyInit" not in x or x["anyInit"].get("name") in by_name:
+                    raise Refuse(f"constructor of {rec}: unexpected initialiser")
+                by_name[x["anyInit"]["name"]] = x
+            for (f, ft) in fields:                 # initialisation order = declaration order
+                if f not in by_name:
+                    raise Refuse(f"constructor of {rec} leaves {f} uninitialised")
+                e = [y for y in by_name[f]["inner"] if isinstance(y, dict)][0]
+                if e.get("kind") == "InitListExpr" and rec_key(ft) is None and len(e.get("inner", [])) == 1:
+                    e = e["inner"][0]
+                v = sub.expr(e)
+                if (rec_key(ft) is not None) != isinstance(v, SV):
+                    raise Refuse(f"constructor of {rec}: initialiser of {f}")
+                cur[f] = v
+            if set(by_name) - {f for f, _ in fields}:
+                raise Refuse(f"constructor of {rec}: initialiser of an unknown member")
+        sub.this_val = SV([cur[f] for f, _ in fields])
+        sub.this_rec = rec
+        body = [x for x in d.get("inner", []) if x.get("kind") == "CompoundStmt"][0].get("inner", [])
+        r = sub.stmts(body)
+        if r is not None:
+            raise Refuse(f"constructor of {rec}: return in the body")
+        self.n = sub.n
+        return sub.this_val
+
+    def assign_member(self, s):
+        """`<member> = e;` in a constructor body (defaulted copy / move assignment of a struct, or an integer member)"""
+        k = s.get("kind")
+        while k in ("ExprWithCleanups", "ParenExpr"):
+            s = s["inner"][0]
+            k = s.get("kind")
+        if k == "CXXOperatorCallExpr":
+            callee = s["inner"][0]
+            while callee.get("kind") in ("ImplicitCastExpr", "ParenExpr"):
+                callee = callee["inner"][0]
+            ref = callee.get("referencedDecl", {})
+            if ref.get("name") != "operator=" or ref.get("id") in Tr.forest.def_by_decl and not Tr.forest.def_by_decl[ref["id"]].get("isImplicit") \
+                    and Tr.forest.def_by_decl[ref["id"]].get("explicitlyDefaulted") != "default":
+                raise Refuse("assignment through a user-written operator=")
+            lhs, rhs = s["inner"][1], s["inner"][2]
+        elif k == "BinaryOperator" and s.get("opcode") == "=":
+            lhs, rhs = s["inner"]
+        else:
+            return False
+        if not (lhs.get("kind") == "MemberExpr" and lhs["inner"][0].get("kind") == "CXXThisExpr" and self.this_val is not None):
+            raise Refuse("assignment to something that is not a member of *this")
+        names = [f for f, _ in struct_fields(self.this_rec)]
+        if lhs.get("name") not in names:
+            raise Refuse(f"assignment to unknown member {lhs.get('name')}")
+        v = self.expr(rhs)
+        i = names.index(lhs["name"])
+        if isinstance(v, SV) != isinstance(self.this_val[i], SV):
+            raise Refuse(f"assignment to member {lhs.get('name')}: shape")
+        new = SV(self.this_val)
+        new[i] = v
+        self.this_val = new
+        return True
+
     def construct(self, n, key, spec):
         """construction of a record carried as its single data member `spec["member"]`: the constructor DEFINITION selected
         by overload resolution is looked up (class specialisation + parameter type, exactly one candidate) and its member
@@ -520,6 +870,7 @@ class Tr:
         """translate in a sub-context; returns (term, monadic-or-None)"""
         sub = Tr(self.records, self.calls, self.members)
         sub.env = dict(self.env)
+        sub.this_val, sub.this_rec = self.this_val, self.this_rec
         sub.n = self.n
         term = sub.expr(n)
         self.n = sub.n
@@ -557,6 +908,11 @@ class Tr:
         if op in ("&&", "||"):
             a = self.expr(l)
             b_term, b_mon = self.branch(r)
+            if b_mon is not None and Tr.structs:
+                # the right operand can be undefined: it is evaluated only when the left one does not decide
+                t = self.fresh()
+                self.binds.append(("do", t, f"(if {a} then {b_mon} else Some false)" if op == "&&" else f"(if {a} then Some true else {b_mon})"))
+                return t
             if b_mon is not None:
                 raise Refuse("short-circuit operand with checked arithmetic")
             return f"({a} {op} {b_term})"
@@ -605,7 +961,19 @@ class Tr:
                     if d["kind"] != "VarDecl" or "inner" not in d:
                         raise Refuse(f"declaration {d['kind']}")
                     init = [x for x in d["inner"] if x.get("kind") not in ("FullComment",)][0]
+                    if Tr.structs and re.search(r"\[[0-9]+\]$", strip_cv(qt(d))):
+                        # a local constant array of scalars (or one-field records): its elements, for nth_chk
+                        if init.get("kind") != "InitListExpr" or "const" not in qt(d):
+                            raise Refuse("array declaration that is not a constant initialiser list")
+                        elems = [sv_flat(self.expr(x)) for x in init.get("inner", [])]
+                        if any(len(e) != 1 for e in elems):
+                            raise Refuse("array of records with several fields")
+                        self.env[d["id"]] = ("array", [str(e[0]) for e in elems])
+                        continue
                     term = self.expr(init)
+                    if isinstance(term, SV):
+                        self.env[d["id"]] = term      # a record value: carried field by field, no binding of its own
+                        continue
                     # narrowing to the declared type is already an IntegralCast node in the AST
                     nm = self.fresh(d["name"] + "_")
                     self.binds.append(("let", nm, term))
@@ -637,26 +1005,33 @@ class Tr:
                     live = then_nodes if c == "true" else else_nodes
                     sub = Tr(self.records, self.calls, self.members)
                     sub.env = dict(self.env); sub.n = self.n + 100
+                    sub.this_val, sub.this_rec = self.this_val, self.this_rec
                     r = sub.stmts(live)
                     if r is None:
                         raise Refuse("function body without return")
                     return render(self.binds, f"({r})", wrap_some=False)
                 then_t = Tr(self.records, self.calls, self.members)
                 then_t.env = dict(self.env); then_t.n = self.n + 100
+                then_t.this_val, then_t.this_rec = self.this_val, self.this_rec
                 a = then_t.stmts(then_nodes)
                 if a is None:
                     raise Refuse("if-branch without return")
                 rest_t = Tr(self.records, self.calls, self.members)
                 rest_t.env = dict(self.env); rest_t.n = self.n + 200
+                rest_t.this_val, rest_t.this_rec = self.this_val, self.this_rec
                 b = rest_t.stmts(else_nodes)
                 if b is None:
                     raise Refuse("fall-through after if")
                 return render(self.binds, f"(if {c} then ({a}) else ({b}))", wrap_some=False)
             elif k in ("NullStmt",):
                 continue
+            elif Tr.structs and self.this_val is not None and k in ("ExprWithCleanups", "CXXOperatorCallExpr", "BinaryOperator") \
+                    and self.assign_member(s):
+                continue
             elif k == "CompoundStmt":
                 sub = Tr(self.records, self.calls, self.members)
                 sub.env = dict(self.env); sub.n = self.n + 300
+                sub.this_val, sub.this_rec = self.this_val, self.this_rec
                 r = sub.stmts(s.get("inner", []) + nodes[idx + 1:])
                 if r is None:
                     raise Refuse("function body without return")
@@ -671,13 +1046,24 @@ def render(binds, final, wrap_some=True):
     for kind, name, rhs in binds:
         if kind == "do":
             out += f"do {name} <- {rhs};\n  "
+        elif kind == "letp":
+            out += f"let '{name} := {rhs} in\n  "
         else:
             out += f"let {name} := {rhs} in\n  "
     return out + final
 
 
 def select(forest, k):
+    if "ctor_of" in k:
+        # a constructor DEFINITION of a configured struct, chosen by its printed type
+        cands = [d for (o, d) in forest.rec_ctors if o == k["ctor_of"] and d.get("type", {}).get("qualType") == k.get("signature_is")
+                 and any(x.get("kind") == "CompoundStmt" for x in d.get("inner", []))]
+        if len(cands) != 1:
+            raise Refuse(f"{len(cands)} definitions of constructor {k['ctor_of']} {k.get('signature_is')}")
+        return cands[0]
     cands = [o for o in forest.funcs if o.get("name") == k["cxx_name"]]
+    if "method_of" in k:
+        cands = [o for o in cands if forest.rec_owner.get(o.get("id")) == k["method_of"]]
     if "signature_contains" in k:
         cands = [o for o in cands if all(x in o.get("type", {}).get("qualType", "") for x in k["signature_contains"])]
     if "signature_is" in k:
@@ -693,13 +1079,22 @@ def select(forest, k):
     return cands[0]
 
 
-def check_getter(forest, mid, member):
+def check_getter(forest, mid, member, copy=False):
     fn = forest.func_by_id.get(mid) if forest is not None else None
     if fn is None:
         raise Refuse("accessor without visible definition")
     body = [x for x in fn["inner"] if x.get("kind") == "CompoundStmt"][0].get("inner", [])
     if len(body) == 1 and body[0].get("kind") == "ReturnStmt":
         e = body[0]["inner"][0]
+        if copy and e.get("kind") == "CXXConstructExpr" and len(e.get("inner", [])) == 1:
+            # `return _d;` of a record member: the copy constructor of the member's own type, which must be a record
+            # carried as its single member (kind "ctor", whose defaulted copy is the identity)
+            ct = e.get("ctorType", {}).get("qualType", "")
+            m = re.match(r"^void \((.*)\)( noexcept)?$", ct)
+            key = strip_cv(qt(e)).split("<")[0].split("::")[-1]
+            if not m or record_canon(m.group(1)) != record_canon(qt(e)) or Tr.cfg.get("records", {}).get(key, {}).get("kind") != "ctor":
+                raise Refuse(f"accessor {fn.get('name')}: returned copy {ct} of {qt(e)}")
+            e = e["inner"][0]
         while e.get("kind") in ("ImplicitCastExpr", "ParenExpr") and e.get("castKind", "LValueToRValue") in ("LValueToRValue", "NoOp"):
             e = e["inner"][0]
         if e.get("kind") == "MemberExpr" and e.get("name") == member and e["inner"][0].get("kind") == "CXXThisExpr":
@@ -738,6 +1133,8 @@ def translate_kernel(k, cfg, forest):
         Tr.in_progress.discard(fn.get("id"))
     if Tr.auto_callees and "id" in fn:
         Tr.kernel_ids[fn["id"]] = k["gallina_name"]
+    if Tr.structs and k.get("callable") and "id" in fn:
+        Tr.kernel_ids[fn["id"]] = k["gallina_name"]     # later calls of this definition bind its result instead of inlining
     return text
 
 
@@ -745,8 +1142,22 @@ def translate_fn(fn, k, cfg):
     tr = Tr(cfg.get("records", {}), cfg.get("calls", {}), k.get("members", {}))
     params = []
     ptypes = {}
+    own = Tr.forest.rec_owner.get(fn.get("id")) if Tr.structs and Tr.forest is not None else None
+    is_ctor = fn.get("kind") == "CXXConstructorDecl"
+    if own is not None and own in Tr.structs and not is_ctor and fn.get("storageClass") != "static":
+        # a non-static member function of a configured struct: the fields of *this come first
+        if not re.search(r"\) const( noexcept)?( ->.*)?$", fn.get("type", {}).get("qualType", "")):
+            raise Refuse("non-const member function as a kernel")
+        tr.this_val = sv_names(own, "" if len(struct_fields(own)) > 1 else struct_fields(own)[0][0].lstrip("_"))
+        tr.this_rec = own
+        params += sv_flat(tr.this_val)
     for p in fn.get("inner", []):
-        if p["kind"] == "ParmVarDecl":
+        if p["kind"] == "ParmVarDecl" and Tr.structs and rec_key(qt(p)) is not None:
+            pname = k.get("param_names", {}).get(p.get("name"), p.get("name"))
+            v = sv_names(rec_key(qt(p)), pname)
+            tr.env[p["id"]] = v
+            params += sv_flat(v)
+        elif p["kind"] == "ParmVarDecl":
             pname = k.get("param_names", {}).get(p.get("name"), p.get("name"))
             tr.env[p["id"]] = pname
             params.append(pname)
@@ -756,6 +1167,17 @@ def translate_fn(fn, k, cfg):
                 ptypes[pname] = "Z"       # record types carried as their integer representation (configuration `records`)
     for m in k.get("members", {}).values():
         params.append(m)
+    if len(set(params)) != len(params):
+        raise Refuse(f"parameter names are not distinct: {params}")
+    if is_ctor:
+        # a constructor of a configured struct as a kernel: the object it leaves behind
+        if own not in Tr.structs:
+            raise Refuse(f"constructor of {own}: not a configured struct")
+        ps = [p for p in fn.get("inner", []) if p.get("kind") == "ParmVarDecl"]
+        Tr.in_progress.discard(fn.get("id"))
+        v = tr.run_ctor(fn, own, [tr.env[p["id"]] for p in ps])
+        sig = " ".join(f"({p} : {ptypes.get(p, 'Z')})" for p in params)
+        return f"Definition {k['gallina_name']} {sig} :=\n  {render(tr.binds, f'Some {v}')}.\n"
     body = [x for x in fn["inner"] if x["kind"] == "CompoundStmt"][0]
     term = tr.stmts(body.get("inner", []))
     if term is None:
@@ -801,14 +1223,19 @@ def main():
         except (OSError, ValueError):
             pass
     out = ["(* GENERATED by translate/cxx2gallina.py from %s/include — do not edit.  Regenerated on every run. *)" % "REPO",
-           "From Tetl Require Import Lib.Base Lib.MachOps.", "Local Open Scope Z_scope.",
+           "From Tetl Require Import Lib.Base Lib.MachOps.", *(["From Coq Require Import List.", "Import ListNotations."] if cfg.get("structs") else []), "Local Open Scope Z_scope.",
            "Notation \"'do' x <- a ; b\" := (obind a (fun x => b)) (at level 200, x name, a at level 100, b at level 200).", ""]
+    if cfg.get("structs"):
+        out += ["(* element of a local constant array; None = index outside the array (undefined behaviour) *)",
+                "Definition nth_chk (l : list Z) (i : Z) : option Z :=",
+                "  if (0 <=? i) && (i <? Z.of_nat (length l)) then Some (nth (Z.to_nat i) l 0) else None.", ""]
     refused = {}
     Tr.kernel_calls = {}
     Tr.kernel_ids = {}
     Tr.in_progress = set()
     Tr.cfg = cfg
     Tr.auto_callees = bool(cfg.get("auto_callees"))
+    Tr.structs = cfg.get("structs", {})
     Forest.tu_text = cfg["tu"]
     Forest.use_clang_constants = bool(cfg.get("clang_constants"))
     try:
